@@ -35,11 +35,20 @@ static task_t* bag[MAXC]; static int nbag, nspawn;
 static task_t* cur_task; static u16 cur_slot, cur_thread;
 static int nalloc, nfree, nnotify;
 static u64 G;        /* grainsize of the loop */
-static int psplit_seen;
+static int psplit_seen, last_kind; static u64 prev_div;   /* divisor of the running task before its latest split */
 
+/* an oracle violation ends the path (the counterexample is complete at that point): keeps a defect that also makes a loop run
+   on (e.g. the same piece offered again and again) from being masked by the unwinding bound */
+#define VP_CHECK(c, msg) do { VP_ASSERT(c, msg); __CPROVER_assume(c); } while (0)
+static u64 TB, TE;    /* range of the task being executed (ROOT=0/2) or of the loop (ROOT=1) */
 static void piece(u64 b, u64 e, int kind) {
-  VP_ASSERT(nR < MAXC, "more pieces than the harness bound (bound too small, not a defect)");
-  if (nR < MAXC) { R_b[nR] = b; R_e[nR] = e; R_kind[nR] = (u8)kind; nR++; }
+  VP_CHECK(b < e, "empty piece (empty chunk given to the body / task with an empty range spawned)");
+  VP_CHECK(TB <= b && e <= TE, "piece outside the task's range (body applied outside the iteration space)");
+#if ROOT != 1
+  for (int j = 0; j < MAXC; j++) if (j < nR) VP_CHECK(e <= R_b[j] || R_e[j] <= b, "two pieces overlap (an element would be processed twice)");
+#endif
+  VP_CHECK(nR < MAXC, "more pieces than the harness bound (bound too small, not a defect)");
+  R_b[nR] = b; R_e[nR] = e; R_kind[nR] = (u8)kind; nR++;
 }
 static void maybe_steal_flag(void) {   /* a thief that took the sibling may mark the common parent at any time */
 #if PART == 1 || PART == 3
@@ -47,15 +56,15 @@ static void maybe_steal_flag(void) {   /* a thief that took the sibling may mark
 #endif
 }
 void vp_body(u64 b, u64 e) {
-  VP_ASSERT(b < e, "body called with an empty subrange");
   piece(b, e, 0);
   maybe_steal_flag();
 }
 void vp_on_split(u64 kind, u64 left, u64 right, u64 divisible) {
-  VP_ASSERT(divisible, "a range that is not divisible was split");
+  VP_CHECK(divisible, "a range that is not divisible was split");
+  last_kind = (int)kind;
   if (kind == 1) {
     psplit_seen = 1;
-    VP_ASSERT(right >= 1 && left >= right && left - right <= 1, "partitioner produced a proportion outside (n-n/2, n/2), n>=2: right part may be empty / unbalanced");
+    VP_CHECK(right >= 1 && left >= right && left - right <= 1, "partitioner produced a proportion outside (n-n/2, n/2), n>=2: right part may be empty / unbalanced");
   }
 }
 /* ---- r1:: boundary ---- */
@@ -86,14 +95,20 @@ void _ZN3tbb6detail2r124cache_aligned_deallocateEPv(u8* p) { free(p); }
 #endif
 static void on_spawn(task_t* t, int has_id, u16 id) {
   u64 r[3]; vp_task_range(t, r);
-  VP_ASSERT(r[0] < r[1], "a task with an empty range was spawned");
-  VP_ASSERT(r[2] == G, "spawned task's range has a different grainsize");
+  VP_CHECK(r[2] == G, "spawned task's range has a different grainsize");
   piece(r[0], r[1], 1);
-  VP_ASSERT(nbag < MAXC, "more spawned tasks than the harness bound (bound too small, not a defect)");
-  if (nbag < MAXC) bag[nbag++] = t;
+  VP_CHECK(nbag < MAXC, "more spawned tasks than the harness bound (bound too small, not a defect)");
+  bag[nbag++] = t;
   nspawn++;
 #if PART == 2
-  VP_ASSERT(has_id && id < P, "static partitioner: task not mailed to a slot inside the arena (my_head >= my_max_affinity)");
+  VP_CHECK(has_id && id < P, "static partitioner: task not mailed to a slot inside the arena (my_head >= my_max_affinity)");
+#endif
+#if PART >= 2
+  if (cur_task) {   /* proportional split of the partition: the two portions are the previous divisor, none is lost or invented */
+    u64 qp[5], qc[5]; vp_task_part(cur_task, qp); vp_task_part(t, qc);
+    if (last_kind == 1) VP_CHECK(qp[0] + qc[0] == prev_div && qc[0] >= 1 && qp[0] >= 1, "proportional split: portions do not sum to the previous divisor / a portion is 0 (divisor underflow)");
+    prev_div = qp[0];
+  }
 #endif
   maybe_steal_flag();
 }
@@ -121,6 +136,7 @@ static void run_one(task_t* t, ctx_t* c) {
   u16 aff = (u16)vp_nd(); __CPROVER_assume(aff < P || aff == 0xffff);                   /* affinity slot or no_slot */
   vp_ed_set(&ed, c, orig, aff);
   cur_task = t;
+  { u64 q0[5]; vp_task_part(t, q0); prev_div = q0[0]; }
   vp_task_execute(t, &ed);
   cur_task = 0;
 }
@@ -130,7 +146,9 @@ static void check_partition_of(u64 b, u64 e) {
   for (int i = 0; i < MAXC; i++) if (i < nR) {
     VP_ASSERT(R_b[i] < R_e[i], "empty piece");
     VP_ASSERT(b <= R_b[i] && R_e[i] <= e, "piece outside the task's range (body applied outside the iteration space)");
+#if ROOT == 1   /* (ROOT 0/2: already checked piece by piece) */
     for (int j = 0; j < i; j++) VP_ASSERT(R_e[i] <= R_b[j] || R_e[j] <= R_b[i], "two pieces overlap (an element would be processed twice)");
+#endif
     sum += R_e[i] - R_b[i];
   }
   VP_ASSERT(sum == e - b, "pieces do not cover the range (an element would be skipped)");
@@ -180,7 +198,7 @@ int main(void) {
 #ifdef GFIX
   __CPROVER_assume(g == GFIX && b == BFIX);
 #endif
-  LB = b; LE = e;
+  LB = b; LE = e; TB = b; TE = e;
   vp_run(b, e, g);
   if (b == e) {
     VP_ASSERT(nR == 0 && nalloc == 0 && root_seen == 0, "empty range: body called / task created");
@@ -202,7 +220,7 @@ int main(void) {
 #ifdef BFIX
   __CPROVER_assume(b == BFIX);
 #endif
-  LB = b; LE = e;
+  LB = b; LE = e; TB = b; TE = e;
   vp_run(b, e, g);
   if (b == e) {
     VP_ASSERT(nR == 0 && nalloc == 0, "empty range: body called / task created");
@@ -233,7 +251,7 @@ int main(void) {
   o[0] = vp_nd(); o[1] = vp_nd(); o[2] = vp_nd(); o[3] = vp_nd(); o[4] = vp_nd();
   __CPROVER_assume(inv_part(o));
   vp_task_set_part(t, o);
-  int a0 = nalloc;
+  TB = b; TE = e;
   run_one(t, (ctx_t*)vp_ctx());
   check_partition_of(b, e);
   for (int i = 0; i < MAXC; i++) if (i < nbag) {
